@@ -81,6 +81,15 @@ def asarray(a, dtype=None, **k):
         return array(a, dtype)
     r = real_np.asarray(a)
     if r.dtype == object:
+        # an object buffer the engine knows (e.g. an astropy Column of symbolic cells): numpy returns a view when the requested
+        # dtype is the array's own and a converted COPY otherwise -- which decides whether later in-place writes alias
+        from .arrays import logical_dtype_of
+        ldt = logical_dtype_of(a) if isinstance(a, real_np.ndarray) else None
+        if ldt is not None:
+            v = as_sarr(r, ldt)
+            if dtype is not None and as_npdtype(dtype) != ldt:
+                return v.astype(dtype)
+            return v
         return as_sarr(r, dtype)
     if dtype is not None:
         r = real_np.asarray(a, dtype=as_npdtype(dtype))
